@@ -59,7 +59,22 @@ def _quant_in(is_all):
     return f
 
 
+def _fresh(interp, args, kwargs):
+    """fresh(x): x was allocated during the call under verification (None is not fresh)"""
+    from .core import BIRTH
+    v = args[0]
+    if v is None:
+        return False
+    if isinstance(v, SV) and v.ty.name == "Opt":
+        s = sort_of(v.ty)
+        return SV(BOOL, z3.And(z3.Not(s.is_none(v.t)), BIRTH(s.val(v.t)) >= 0))
+    if isinstance(v, SV) and v.ty.name == "Ref":
+        return SV(BOOL, BIRTH(v.t) >= 0)
+    raise Unsupported(f"fresh() of {v!r}")
+
+
 SPEC_BUILTINS = {
+    "fresh": _fresh,
     "all_in": _quant_in(True), "any_in": _quant_in(False),
     "replace_all": _replace_all,
     "same_keys": lambda interp, args, kwargs: _keys_rel(interp, args[0], args[1], None, "same"),
